@@ -14,7 +14,14 @@ import (
 	"golang.org/x/tools/go/ssa/ssautil"
 )
 
-const repoDir = "/repo"
+// repoDir is the tree under check. Registered commands always use /repo; VERIF_REPO exists only so
+// that a seeded change can be tried in a scratch worktree while other checks read /repo.
+var repoDir = func() string {
+	if d := os.Getenv("VERIF_REPO"); d != "" {
+		return d
+	}
+	return "/repo"
+}()
 
 // Job is one symbolic-execution run: an entry function (a harness living in an overlay file
 // inside the package under test) explored over all feasible paths.
